@@ -65,6 +65,10 @@ def generate(rng, n, tier):
         for kind in ("field", "arith", "function", "case"):
             for op in ("union", "intersect"):
                 yield {"cls": cls, "kind": kind, "shape": 0, "positions": ["setop_orderby"], "alias": "al", "setop": op}
+    # a star select removes (or blocks) the aliased column: GROUP BY / ORDER BY must then refer to the column, not the alias
+    for cls in QNAMES:
+        for variant in range(4):
+            yield {"cls": cls, "kind": "field", "shape": 0, "positions": ["star_prunes"], "alias": "al", "variant": variant}
     for _ in range(n):
         k = rng.randint(2, 4)
         yield {"cls": rng.choice(list(QNAMES)), "kind": rng.choice(list(KINDS)), "shape": rng.randint(0, 1),
@@ -102,6 +106,12 @@ def build(case):
         chain += ".having(%s)" % ("e" if is_crit else "(fn.Sum(t.a) > e)" if is_sub else "e < 5")
     if "orderby_sel" in pos or "orderby_unsel" in pos:
         chain += ".orderby(e)"
+    if pos == ["star_prunes"]:
+        v = case.get("variant", 0)
+        chain = [".select(t.b, e).groupby(e).orderby(e).select(t.star)", ".select(e).orderby(e).select(t.star).groupby(e)",
+                 ".select(t.star).select(e).groupby(e).orderby(e)", ".select(e, t.b).groupby(e).select('*').orderby(e)"][v]
+        lines.append("q = %s.from_(t)%s" % (qn, chain))
+        return "\n".join(lines)
     if pos == ["setop_orderby"]:
         lines.append("q = %s.from_(t).select(t.b, e).%s(%s.from_(u).select(u.b, u.a.as_(%r))).orderby(e)"
                      % (qn, case.get("setop", "union"), qn, case["alias"]))
@@ -127,6 +137,8 @@ def examine(case):
         return examine_nested(dict(case, positions=pos))
     if pos == ["setop_orderby"]:
         return examine_setop(dict(case, positions=pos))
+    if pos == ["star_prunes"]:
+        return examine_star(dict(case, positions=pos))
     selected = any(p in pos for p in ("select", "groupby_sel", "orderby_sel"))
     if selected:
         pos = [p for p in pos if p not in ("groupby_unsel", "orderby_unsel")] + \
@@ -282,4 +294,30 @@ def examine_setop(case):
                                  "what": "alias %s quoted %r, the %s alias convention is %r | %s"
                                          % ("reference in ORDER BY" if i == 2 else "definition", t.quote, cls, aq, text)})
             break
+    return res
+
+
+def examine_star(case):
+    """after a star select the aliased column is no longer (or never becomes) a select term: no reference may use its alias"""
+    res = Result()
+    src = build(case)
+    case["recipe"] = src
+    q = ns.ex(src)["q"]
+    text = str(q)
+    res.nontrivial = True
+    res.key = struct_hash(["star", case["cls"], case.get("variant")])
+    res.tags = ["kind=field", "cls=" + case["cls"], "pos=star_prunes"]
+    try:
+        res.requests.append(({"op": "render", "ctx": describe.d_ctx({"dialect": q.dialect}), "term": describe.describe(q)},
+                             {"sql": text}, "str(statement)"))
+    except Unsupported as ex:
+        res.skipped = str(ex)[:40]
+    try:
+        toks = sqlspec.lex(text, ident_quotes='"`')
+    except sqlspec.LexError as ex:
+        res.findings.append({"sig": {"kind": "lex", "term": "field"}, "what": "unlexable: %s | %s" % (ex, text)})
+        return res
+    if any(t.kind == "id" and t.val == case["alias"] for t in toks):
+        res.findings.append({"sig": {"kind": "alias-referenced-but-not-defined", "term": "field"},
+                             "what": "the alias %r is referred to but the select list (a star) does not define it | %s | %s" % (case["alias"], text, src)})
     return res
